@@ -82,8 +82,8 @@ Theorem js_v01_eq q bs : spec_v01 q = Ok bs -> wf_lpose q -> Forall wcomp_plain 
       ~ In (c_name c) (map c_name (skipn (S n) (lcomps q))) ->
       let t := point_offset (lcomps q) n + l in
       js_cell (jp_frame jp (Z.of_nat i)) j (c_name c) l 67 = Some (VF32 (tget 0%N (mkT [F; P; T] (l_conf q)) [i; j; t])) /\
-      forall d x, nth_error (c_format c) d = Some x -> x <> 67%N -> d < D -> ~ In x (skipn (S d) (c_format c)) ->
-        js_cell (jp_frame jp (Z.of_nat i)) j (c_name c) l x = Some (VF32 (tget 0%N (mkT [F; P; T; D] (l_data q)) [i; j; t; d])).
+      forall d x, nth_error (c_format c) d = Some x -> x <> 67%N -> coord_index (c_format c) d < D -> ~ In x (skipn (S d) (c_format c)) ->
+        js_cell (jp_frame jp (Z.of_nat i)) j (c_name c) l x = Some (VF32 (tget 0%N (mkT [F; P; T; D] (l_data q)) [i; j; t; coord_index (c_format c) d])).
 Proof.
   intros H Hwf Hplain. destruct (js_parse_v01 q bs H Hwf Hplain) as [h [Hh Hparse]].
   destruct Hwf as [Hfps [HF [HP [Hdw [Hcw [HT [Hnd [Hld Hlc]]]]]]]].
